@@ -96,11 +96,11 @@ class Measurement(NamedTuple):
         _max_width = console.width if max_width is None else max_width
         if _max_width < 1:
             return Measurement(0, 0)
-        if isinstance(renderable, str):
-            renderable = console.render_str(renderable)
-
         if isinstance(renderable, RichCast):
             renderable = renderable.__rich__()
+
+        if isinstance(renderable, str):
+            renderable = console.render_str(renderable)
 
         if is_renderable(renderable):
             get_console_width = getattr(renderable, "__rich_measure__", None)
